@@ -1,12 +1,12 @@
 #!/bin/bash
-# runs every seeded defect against the check of the property it breaks; writes /verif/seeded/RESULTS.tsv
+# runs every seeded defect against the check of the property it breaks; writes /verif/seeded/RESULTS_<tier>.tsv
 TIER=${1:-quick}
 OUT=/verif/seeded/RESULTS_$TIER.tsv
 : > $OUT
-for d in /verif/seeded/C*-m*/; do
+for d in /verif/seeded/C*-*m*/; do
   SID=$(basename $d); CID=${SID%%-*}
   if ! ls /verif/checks | grep -qi "^$(echo $CID | tr 'A-Z' 'a-z')_"; then echo -e "$SID\t$CID\tno-check" >> $OUT; continue; fi
-  R=$(/verif/bin/try_seed.sh $SID $CID $TIER 2>&1 | tail -1)
+  R=$(timeout 1500 /verif/bin/try_seed.sh $SID $CID $TIER 2>&1 | tail -1)
   RC=$(echo "$R" | sed -n 's/.*exit=\([0-9]*\).*/\1/p')
   KEY=$(echo "$R" | sed -n 's/.*key=\([^ ]*\).*/\1/p' | cut -c1-80)
   echo -e "$SID\t$CID\texit=$RC\t$KEY" >> $OUT
